@@ -5,6 +5,8 @@ interpret_indexing by this check, same tabulation as C20); the arithmetic of
 CoordinateSystem.coordinate / .voxel, Image.opposite_corner / .voxel_size / default origin and the typed
 points is tied to DarsiaModel.Coord by a differential correspondence that is EXACT on the dyadic stream
 (every float operation exact) and compares voxel indices exactly / measures the float error on the general stream.
+A quarter of the geometries are examined after an in-place history (touch / reset_origin / origin and dimensions assignments) on the same image
+object; batches are checked to be the map of the single form with one point per row (N = 1 and 1-d images included).
 The oracle evaluates the property statement on the implementation: every voxel of the image plus a halo,
 single and batch call forms, scalar / vector / series payloads, default and far user origins.
 """
@@ -28,8 +30,13 @@ CLAIM = dict(
     "coord_opposite, coord_step (orientation table regenerated from the running interpret_indexing and proved to be a permutation "
     "and the documented one), voxel_of_inside (every point with offset in [0,1) of a voxel converts back to it), center_roundtrip, "
     "batch_roundtrip (lists of any length), typed_roundtrip / constructors_idempotent for the typed points, default_origin_box, "
-    "center_stable (float bridge: quotient error < 1/2 voxel cannot change a centre's index). Tie: generated axis table + "
-    "differential correspondence model vs implementation, exact on dyadic geometries, index-exact with measured float error "
+    "center_stable (float bridge: quotient error < 1/2 voxel cannot change a centre's index). Remaining public surface (round 2): coordinate_vector_linear, "
+    "num_voxels_length (num_voxels(length(n)) = n; num_voxels(L) voxels cover L with < 1 voxel to spare), ceil_bridge, min_max_coordinate + voxel_in_domain (bounding box, "
+    "reversed axes), matrix_indexing_false_involutive, check_equal_refl, check_equal_symm_of_symm, npclose_not_symmetric (witness: numpy's isclose is not symmetric), "
+    "coordinatesystem_tracks_state (history independence: after any sequence of conversions, reset_origin(), origin / dimensions assignments on ONE image object the "
+    "coordinate system is that of the current fields), reset_origin_default. Tie: generated axis table + "
+    "differential correspondence model vs implementation (coordinate, voxel, opposite_corner, voxel_size, default origin, typed points, coordinate_vector, length, num_voxels, "
+    "min/max_coordinate, Image.domain, voxels/coordinates, make_* incl. matrix_indexing=False and batch assertions, check_equal_coordinatesystems incl. error classes), exact on dyadic geometries, index-exact with measured float error "
     "(recorded, must stay < 2^-20 voxel) on general geometries with origins up to 1e6 voxel sizes away.",
     note="float arithmetic itself is not modelled: the general stream compares voxel indices at centres and at offsets >= 2^-10 voxel from "
     "a face and records the measured error of the implementation's quotient; numpy IEEE semantics trusted; Voxel(matrix_indexing=False) not covered.",
@@ -98,12 +105,79 @@ def make_image(d, g, payload="scalar"):
     vector = "vector" in payload
     full = shape + ((3,) if series else ()) + ((2,) if vector else ())
     arr = np.zeros(full, dtype=float)
-    kw = dict(space_dim=dim, dimensions=list(g["dims"]), scalar=not vector, series=series)
+    dims0, origin0 = g.get("built_dims", g["dims"]), g.get("built_origin", g["origin"])
+    kw = dict(space_dim=dim, dimensions=list(dims0), scalar=not vector, series=series)
     if series:
         kw["time"] = [0.0, 1.0, 2.0]
-    if g["origin"] is not None:
-        kw["origin"] = list(g["origin"])
-    return call(d.Image, arr, **kw)
+    if origin0 is not None:
+        kw["origin"] = list(origin0)
+    img = call(d.Image, arr, **kw)
+    if isinstance(img, Raised) or not g.get("history"):
+        return img
+    r = call(apply_history, d, img, g["history"])
+    return r if isinstance(r, Raised) else img
+
+
+def apply_history(d, img, history):
+    """In-place life of ONE image object before it is examined: conversions are requested (so anything cached is
+    populated), then the origin / dimensions are changed through the public means, possibly several times."""
+    for op in history:
+        if op == "touch":
+            cs = img.coordinatesystem
+            cs.coordinate(np.zeros(img.space_dim))
+            cs.voxel(np.asarray(img.origin, dtype=float))
+            img.opposite_corner
+            img.voxel_size
+        elif op == "reset_origin":
+            img.reset_origin()
+        elif op[0] == "set_origin":
+            img.origin = d.Coordinate(np.array(op[1], dtype=float))
+        elif op[0] == "update_origin":
+            img.update_metadata(origin=d.Coordinate(np.array(op[1], dtype=float)))
+        elif op[0] == "set_dimensions":
+            img.dimensions = list(op[1])
+        else:
+            raise ValueError(op)
+
+
+def eff_geometry(g):
+    """The geometry an image has after its history: (dims, origin or None for the default origin)."""
+    dims, origin = list(g["dims"]), g["origin"]
+    for op in g.get("history") or []:
+        if op == "reset_origin":
+            origin = None
+        elif op != "touch" and op[0] in ("set_origin", "update_origin"):
+            origin = list(op[1])
+        elif op != "touch" and op[0] == "set_dimensions":
+            if origin is None:  # the default origin was fixed when the image was built / last reset: it does not follow the dimensions
+                origin = [float(dims[AXMAP[g["dim"]][i][0]]) if AXMAP[g["dim"]][i][1] else 0.0 for i in range(g["dim"])]
+            dims = list(op[1])
+    return dims, origin
+
+
+def with_history(rng, g):
+    """Attach a random in-place history to a geometry (dyadic values stay dyadic)."""
+    dim = g["dim"]
+    def new_origin():
+        if g["dyadic"]:
+            return [float(Fraction(rng.randint(-400, 400), 8)) for _ in range(dim)]
+        return [rng.uniform(-30, 30) * g["dims"][rng.randrange(dim)] for _ in range(dim)]
+    steps = ["touch"]
+    for _ in range(rng.randint(1, 3)):
+        k = rng.random()
+        if k < 0.4:
+            steps.append("reset_origin")
+        elif k < 0.7:
+            steps.append(["set_origin", new_origin()])
+        elif k < 0.85:
+            steps.append(["update_origin", new_origin()])
+        else:
+            steps.append(["set_dimensions", [x * rng.choice([0.5, 2.0, 4.0]) for x in g["dims"]]])
+            if "reset_origin" not in steps[1:]:
+                pass
+        steps.append("touch")
+    h = dict(g, history=steps)
+    return h
 
 
 def cs_tokens(g, origin):
@@ -137,11 +211,20 @@ def zone(v, shape):
 # property oracle on the implementation
 
 
+def effective(g):
+    """g with dims/origin replaced by what the history leaves (the history itself is kept for make_image)."""
+    if not g.get("history"):
+        return g
+    dims, origin = eff_geometry(g)
+    return dict(g, dims=dims, origin=origin, built_dims=g.get("built_dims", g["dims"]), built_origin=g.get("built_origin", g["origin"]))
+
+
 def check_case(d, case):
     """Evaluate ONE clause of the property on the implementation. Returns (holds, observed, required).
     `case` is a JSON-able dict; the same function serves the search and --replay."""
     g = case["geometry"]
     img = make_image(d, g, case.get("payload", "scalar"))
+    g = effective(g)
     if isinstance(img, Raised):
         return False, f"Image(...) raises {img}", "image can be built"
     cs = call(lambda: img.coordinatesystem)
@@ -205,6 +288,34 @@ def check_case(d, case):
         back = np.asarray(back)
         got = back[0] if form == "batch" else back
         return bool(np.array_equal(got, np.array(v))), [int(x) for x in np.ravel(got)], list(v)
+    if clause == "reset-returned":
+        im2 = make_image(d, case["geometry"], case.get("payload", "scalar"))
+        ret = call(im2.reset_origin, True)
+        want = [float(g["dims"][AXMAP[dim][i][0]]) if AXMAP[dim][i][1] else 0.0 for i in range(dim)]
+        if isinstance(ret, Raised) or ret is None:
+            return False, repr(ret), want
+        got_o = [float(x) for x in np.asarray(ret.origin)]
+        return got_o == want, got_o, want
+    if clause == "batch":
+        # batch = map of single: N points in, N points out (one per row, also for N = 1 and for 1-d images), same values
+        V = np.array(case["voxels"], dtype=float).reshape(-1, dim)
+        pts = V + np.array([float(Fraction(x)) for x in case["offset"]])
+        kind = case.get("kind", "array")
+        arg = pts if kind == "array" else d.make_voxel_center(np.floor(pts)) if kind == "VoxelCenterArray" else pts
+        c = call(cs.coordinate, arg)
+        if isinstance(c, Raised):
+            return False, f"coordinate(batch of {len(V)}) raises {c}", "one coordinate per row"
+        if np.asarray(c).shape != V.shape:
+            return False, f"coordinate(batch of shape {V.shape}) has shape {np.asarray(c).shape}", f"shape {V.shape}"
+        back = call(cs.voxel, c) if kind != "CoordinateArray.to_voxel" else call(lambda: d.make_coordinate(np.asarray(c)).to_voxel(cs))
+        if isinstance(back, Raised):
+            return False, f"voxel(batch of {len(V)}) raises {back}", "one voxel per row"
+        if np.asarray(back).shape != V.shape:
+            return False, f"voxel(batch of shape {V.shape}) has shape {np.asarray(back).shape} ({type(back).__name__})", f"shape {V.shape}"
+        singles = [call(cs.voxel, np.asarray(c)[k]) for k in range(len(V))]
+        if any(isinstance(x, Raised) for x in singles) or not np.array_equal(np.asarray(back), np.array([np.asarray(x) for x in singles]).reshape(V.shape)):
+            return False, [[int(y) for y in r] for r in np.asarray(back)], "the single-point results row by row"
+        return bool(np.array_equal(np.asarray(back), np.floor(pts).astype(int))), [[int(y) for y in r] for r in np.asarray(back)], np.floor(pts).astype(int).tolist()
     if clause == "typed":
         v, path = case["voxel"], case["path"]
         vi = np.array(v, dtype=int)
@@ -238,12 +349,31 @@ def check_case(d, case):
             return False, repr(got), [float(x) for x in np.ravel(req)]
         ok = np.asarray(got).shape == np.asarray(req).shape and bool(np.array_equal(np.asarray(got), req))
         return ok, [float(x) for x in np.ravel(np.asarray(got))], [float(x) for x in np.ravel(req)]
+    if clause == "surface":
+        class _C:  # collect failures of the surface oracle for this geometry
+            def __init__(self):
+                import random
+                self.rng, self.f = random.Random(0), []
+            def count(self, *a, **k):
+                pass
+            def fail(self, sig, what, rep):
+                self.f.append((sig, what))
+        c = _C()
+        st = {}
+        for _ in range(20):
+            oracle_surface(c, d, g, case.get("payload", "scalar"), img, cs, origin, st)
+        return (not c.f), [x[1][:200] for x in c.f[:3]], "no failure of the coordinate-system surface clauses"
     raise ValueError(clause)
 
 
 def fail_case(ctx, d, case, sig, what):
     ok, obs, req = check_case(d, case)
-    if ok:  # the vectorised detection and the single evaluation disagree: batch-vs-single inconsistency
+    if ok and case.get("clause") == "roundtrip" and "batch_voxels" in case:
+        # the vectorised detection and the single evaluation disagree: re-evaluate as a batch so that the replay reproduces it
+        case = {**case, "clause": "batch", "voxels": case["batch_voxels"]}
+        ok, obs, req = check_case(d, case)
+        sig, what = sig + ":batch-only", what + " (seen in the batch call form only)"
+    elif ok:
         sig, what = sig + ":batch-only", what + " (seen in the batch call form only)"
     ctx.fail(sig, f"{what}: observed {obs}, required {req}", {**case, "observed": obs, "required": req})
 
@@ -253,12 +383,106 @@ TYPED_PATHS = ("Voxel.to_voxel_center", "VoxelCenter.to_voxel", "make_voxel_cent
                "Coordinate.to_voxel")
 
 
+def oracle_surface(ctx, d, g, payload, img, cs, origin, stats):
+    """The remaining public surface, as properties of the implementation (consequences of the affine map)."""
+    rng = ctx.rng
+    dim, shape = g["dim"], g["shape"]
+    dy = g["dyadic"]
+    base = dict(geometry=g, payload=payload, clause="surface")
+    scale = [abs(frac(origin[i])) + frac(g["dims"][AXMAP[dim][i][0]]) * 8 for i in range(dim)]
+
+    def close(a, b, i):
+        return frac(float(a)) == frac(float(b)) if dy else abs(frac(float(a)) - frac(float(b))) <= 16 * EPS * scale[i]
+
+    # coordinate_vector is the linear part of coordinate
+    v = np.array([rng.randint(-2, n + 2) for n in shape], dtype=float)
+    w = np.array([rng.randint(-12, 12) / 4 for _ in shape])
+    cv = call(cs.coordinate_vector, w)
+    c1, c0 = call(cs.coordinate, v + w), call(cs.coordinate, v)
+    ctx.count(("surface", "coordinate_vector", json.dumps(g)))
+    if isinstance(cv, Raised) or isinstance(c1, Raised) or isinstance(c0, Raised) or not all(
+            close(np.asarray(cv)[i], float(frac(float(np.asarray(c1)[i])) - frac(float(np.asarray(c0)[i]))), i) for i in range(dim)):
+        ctx.fail(f"C01:coordinate_vector!=coordinate-difference:dim={dim}", f"coordinate_vector({w.tolist()}) = {cv!r} but coordinate(v+w) - coordinate(v) = {np.asarray(c1) - np.asarray(c0)} at v={v.tolist()}",
+                 {**base, "voxel": v.tolist(), "vector": w.tolist()})
+    # num_voxels(length(n)) = n and the bounding box
+    for i, axis in enumerate("xyz"[:dim]):
+        n = rng.randint(0, 9)
+        L = call(cs.length, n, axis)
+        back = L if isinstance(L, Raised) else call(cs.num_voxels, L, axis)
+        ctx.count(("surface", "length-num_voxels", json.dumps(g), axis))
+        if isinstance(back, Raised) or int(back) != n:
+            if dy or isinstance(back, Raised):
+                ctx.fail(f"C01:num_voxels(length(n))!=n:dim={dim}", f"axis {axis}: length({n}) = {L!r}, num_voxels of it = {back!r}", {**base, "axis": axis, "n": n})
+            else:
+                stats["num_voxels_float_off_by_one"] = stats.get("num_voxels_float_off_by_one", 0) + 1
+        elif not dy:
+            stats["num_voxels_float_exact"] = stats.get("num_voxels_float_exact", 0) + 1
+        # a length strictly between n and n+1 voxels touches n+1 voxels
+        p_ = AXMAP[dim][i][0]
+        fr = rng.choice([0.25, 0.5, 0.75])
+        Lf = (n + fr) * (g["dims"][p_] / shape[p_])
+        k = call(cs.num_voxels, Lf, axis)
+        if isinstance(k, Raised) or int(k) != n + 1:
+            ctx.fail(f"C01:num_voxels(length between n and n+1)!=n+1:dim={dim}", f"axis {axis}: num_voxels({Lf!r}) = {k!r} for a length of {n + fr} voxels", {**base, "axis": axis, "n": n})
+    mn, mx = call(lambda: cs.min_coordinate), call(lambda: cs.max_coordinate)
+    ctx.count(("surface", "min-max", json.dumps(g)))
+    if isinstance(mn, Raised) or isinstance(mx, Raised):
+        ctx.fail(f"C01:min_coordinate:raises", f"{mn!r} {mx!r}", base)
+    else:
+        mn, mx = np.asarray(mn), np.asarray(mx)
+        dom = cs.domain
+        for i, axis in enumerate("xyz"[:dim]):
+            p = AXMAP[dim][i][0]
+            if not close(mx[i] - mn[i] if not dy else float(frac(float(mx[i])) - frac(float(mn[i]))), g["dims"][p], i):
+                ctx.fail(f"C01:max_coordinate-min_coordinate!=dimensions:dim={dim}", f"axis {axis}: max - min = {mx[i] - mn[i]!r}, physical dimension {g['dims'][p]!r}", {**base, "axis": axis})
+            if dom[axis + "min"] != mn[i] or dom[axis + "max"] != mx[i]:
+                ctx.fail(f"C01:domain!=min/max_coordinate", f"domain {dom} vs min {mn.tolist()} max {mx.tolist()}", base)
+        corners = np.array([[rng.choice([0, n, rng.randint(0, n)]) for n in shape] for _ in range(4)], dtype=float)
+        cc = call(cs.coordinate, corners)
+        if not isinstance(cc, Raised):
+            cc = np.asarray(cc)
+            for row, vrow in zip(cc, corners):
+                for i in range(dim):
+                    t = 0 if dy else 16 * EPS * scale[i]
+                    if frac(float(row[i])) < frac(float(mn[i])) - t or frac(float(row[i])) > frac(float(mx[i])) + t:
+                        ctx.fail(f"C01:voxel-of-image-outside-[min,max]_coordinate:dim={dim}", f"voxel position {vrow.tolist()} has coordinate {row.tolist()} outside [{mn.tolist()}, {mx.tolist()}]", {**base, "voxel": vrow.tolist()})
+    # check_equal_coordinatesystems is reflexive (same object and an independently built equal image)
+    img2 = make_image(d, g, payload)
+    for other in (cs, None if isinstance(img2, Raised) else img2.coordinatesystem):
+        if other is None:
+            continue
+        for ex in (False, True):
+            r = call(d.check_equal_coordinatesystems, cs, other, ex)
+            ctx.count(("surface", "check_equal-refl", json.dumps(g), ex, other is cs))
+            if isinstance(r, Raised) or r[0] is not True or list(r[1]) != []:
+                ctx.fail(f"C01:check_equal_coordinatesystems:not-reflexive", f"check_equal_coordinatesystems(cs, equal cs, exclude_size={ex}) = {r!r}", {**base, "exclude_size": ex})
+    # ... and detects a clear difference in dimensions / shape / origin, naming the field, in both argument orders
+    for mode, field in (("dims", "dimensions"), ("shape", "shape"), ("origin", "coordinate_of_origin_voxel")):
+        g2 = variant_geometry(rng, g, mode)
+        img3 = None if g2 is None else make_image(d, g2, "scalar")
+        if img3 is None or isinstance(img3, Raised):
+            continue
+        for a_, b_ in ((cs, img3.coordinatesystem), (img3.coordinatesystem, cs)):
+            r = call(d.check_equal_coordinatesystems, a_, b_, False)
+            ctx.count(("surface", "check_equal-diff", json.dumps(g), mode))
+            if isinstance(r, Raised) or r[0] is not False or field not in r[1]:
+                ctx.fail(f"C01:check_equal_coordinatesystems:misses-{field}", f"coordinate systems differing in {mode} (geometry {g2}): check_equal_coordinatesystems = {r!r}", {**base, "other": g2})
+    # Voxel(matrix_indexing=False) reverses the component order; twice is the identity
+    raw = np.array([rng.randint(-40, 40) / 8 for _ in range(dim)])
+    once = call(d.make_voxel, raw, matrix_indexing=False)
+    twice = once if isinstance(once, Raised) else call(d.make_voxel, np.asarray(once), matrix_indexing=False)
+    ctx.count(("surface", "matrix_indexing=False", json.dumps(g)))
+    if isinstance(twice, Raised) or not np.array_equal(np.asarray(once), np.floor(raw)[::-1].astype(int)) or not np.array_equal(np.asarray(twice), np.floor(raw).astype(int)):
+        ctx.fail(f"C01:Voxel(matrix_indexing=False):dim={dim}", f"make_voxel({raw.tolist()}, matrix_indexing=False) = {once!r}, applied twice {twice!r}", {**base, "raw": raw.tolist()})
+
+
 def oracle_geometry(ctx, d, g, payload, halo, stats):
     """All clauses of the statement on one geometry; vectorised, failures confirmed by check_case."""
     rng = ctx.rng
     dim, shape = g["dim"], g["shape"]
-    base = dict(geometry=g, payload=payload)
     img = make_image(d, g, payload)
+    g = effective(g)
+    base = dict(geometry=g, payload=payload)
     cs = img if isinstance(img, Raised) else call(lambda: img.coordinatesystem)
     if isinstance(cs, Raised):
         ctx.fail(f"C01:construct:dim={dim}:{payload}", f"image / coordinate system cannot be built: {cs}", {**base, "clause": "zero"})
@@ -314,7 +538,8 @@ def oracle_geometry(ctx, d, g, payload, halo, stats):
         if len(bad):
             idx = int(bad[0])
             v = [int(x) for x in vox[idx]]
-            case = {**base, "clause": "roundtrip", "voxel": v, "offset": [str(Fraction(float(x))) for x in off[idx]], "form": "list"}
+            case = {**base, "clause": "roundtrip", "voxel": v, "offset": [str(Fraction(float(x))) for x in off[idx]], "form": "list",
+                    "batch_voxels": [[int(x) for x in r_] for r_ in vox[max(0, idx - 1): idx + 2]] if name in ("centre", "lower-corner") else [v]}
             fail_case(ctx, d, case, f"C01:voxel(coordinate(v+t))!=v:dim={dim}:{zone(v, shape)}:{name}",
                       f"point at offset {name} of voxel {v} does not convert back to it")
         # single call forms agree with the batch form on a few points
@@ -334,6 +559,32 @@ def oracle_geometry(ctx, d, g, payload, halo, stats):
                     if isinstance(single, Raised) or not np.array_equal(np.asarray(single), np.asarray(c)[idx]):
                         ctx.fail(f"C01:batch!=single:coordinate:dim={dim}", "coordinate() of a batch row differs from the single-point call",
                                  {**case, "observed": repr(single), "required": [float(x) for x in np.asarray(c)[idx]]})
+    # reset_origin(return_image=True) returns an image whose coordinate system is reset as well
+    im2 = make_image(d, g, payload)
+    if not isinstance(im2, Raised):
+        ret = call(im2.reset_origin, True)
+        ctx.count(("reset_origin-returned", json.dumps(g)))
+        if isinstance(ret, Raised) or ret is None:
+            ctx.fail(f"C01:reset_origin(return_image=True):raises", f"{ret!r}", {**base, "clause": "reset-returned"})
+        else:
+            want = [float(g["dims"][AXMAP[dim][i][0]]) if AXMAP[dim][i][1] else 0.0 for i in range(dim)]
+            got_o = [float(x) for x in np.asarray(ret.origin)]
+            z = call(lambda: ret.coordinatesystem.coordinate([0] * dim))
+            if got_o != want or isinstance(z, Raised) or [float(x) for x in np.asarray(z)] != want:
+                ctx.fail(f"C01:reset_origin(return_image=True):returned-image-not-reset:dim={dim}",
+                         f"the image returned by reset_origin(return_image=True) has origin {got_o} (voxel 0 at {z!r}), the reset origin is {want}; the receiver itself has {[float(x) for x in np.asarray(im2.origin)]}",
+                         {**base, "clause": "reset-returned", "observed": got_o, "required": want})
+    # batch = map of single, with one point per row: N = 1, N = 2 and a larger batch; arrays and typed arrays
+    for nb in (1, 2, min(len(vox), 7)):
+        rows = [[int(x) for x in vox[rng.randrange(len(vox))]] for _ in range(nb)]
+        for kind in ("array", "CoordinateArray.to_voxel"):
+            case = {**base, "clause": "batch", "voxels": rows, "offset": ["1/2"] * dim, "kind": kind}
+            ok, obs, req = check_case(d, case)
+            ctx.count(("batch", json.dumps(g), nb, kind))
+            if not ok:
+                ctx.fail(f"C01:batch!=map-of-single:{kind}:dim={dim}:N={'1' if nb == 1 else '>1'}",
+                         f"batch of {nb} voxel centre(s) {rows} through coordinate()/voxel() ({kind}): observed {obs}, required {req}", {**case, "observed": obs, "required": req})
+    oracle_surface(ctx, d, g, payload, img, cs, origin, stats)
     # typed points: a negative, an inside and a beyond voxel, single and batch
     picks = {}
     for row in vox:
@@ -371,7 +622,99 @@ def pts_tokens(rows):
 
 
 def show_rows(rows, f=fmts):
+    rows = np.asarray(rows)
+    if rows.ndim != 2:  # a batch must come back as one point per row; anything else is reported as data, never a crash
+        return f"!shape{tuple(rows.shape)}"
     return " ; ".join(f(r) for r in rows)
+
+
+def int_rows(rows):
+    rows = np.asarray(rows)
+    if rows.ndim != 2:
+        return f"!shape{tuple(rows.shape)}"
+    return " ; ".join(" ".join(str(int(x)) for x in r) for r in rows)
+
+
+def variant_geometry(rng, g, mode):
+    """A second geometry for check_equal_coordinatesystems: equal, or differing clearly (far from the allclose band) in one field."""
+    h = {k_: v_ for k_, v_ in g.items() if k_ not in ("history", "built_dims", "built_origin")}
+    h = dict(h, shape=list(g["shape"]), dims=list(g["dims"]))
+    k = rng.randrange(g["dim"])
+    if mode == "dims":
+        h["dims"][k] = g["dims"][k] * 2
+    elif mode == "shape":
+        h["shape"][k] = g["shape"][k] + 1
+    elif mode == "origin":
+        # a shift well outside numpy's relative tolerance (1e-5) also for origins 1e6 voxel sizes away
+        h["origin"] = [x + ((1.0 + abs(x) / 64) if i == k else 0.0) for i, x in enumerate(g["origin"] if g["origin"] is not None else [0.0] * g["dim"])]
+        if g["origin"] is None:  # keep the default of the reversed axes and shift one component
+            return None
+    elif mode == "dim":
+        nd = rng.choice([x for x in (1, 2, 3) if x != g["dim"]])
+        h = dict(dim=nd, shape=[2] * nd, dims=[1.0] * nd, origin=None, dyadic=True, regime="dy-default")
+    return h
+
+
+def surface_lines(ctx, d, g, img, cs, tok, origin, lines, impl):
+    """Correspondence for the remaining public surface (dyadic geometries: exact)."""
+    rng = ctx.rng
+    dim, shape = g["dim"], g["shape"]
+
+    def show(r, f):
+        return repr(r) if isinstance(r, Raised) else f(r)
+
+    w = [rng.randint(-24, 24) / 4 for _ in range(dim)]
+    lines.append(f"cvec {tok} {flist(w)}")
+    impl.append(show(call(cs.coordinate_vector, np.array(w)), lambda r: fmts(np.asarray(r))))
+    for i, axis in enumerate("xyz"):
+        if i > dim:
+            break
+        p = AXMAP[dim][i][0] if i < dim else 0
+        hp = frac(g["dims"][p]) / shape[p]
+        num = rng.randint(-3, 9)
+        lines.append(f"length {tok} {num} {i}")
+        impl.append(show(call(cs.length, num, axis), lambda r: fmts([r])))
+        ln = float(hp * Fraction(rng.randint(0, 40), 4))
+        lines.append(f"numvoxax {tok} {fmts([ln])} {i}")
+        impl.append(show(call(cs.num_voxels, ln, axis), lambda r: str(int(r))))
+    lines.append(f"mincoord {tok}")
+    impl.append(show(call(lambda: cs.min_coordinate), lambda r: fmts(np.asarray(r))))
+    lines.append(f"maxcoord {tok}")
+    impl.append(show(call(lambda: cs.max_coordinate), lambda r: fmts(np.asarray(r))))
+    lines.append(f"imgdomain {tok}")
+    impl.append(show(call(lambda: img.domain), lambda r: fmts(list(r))))
+    if int(np.prod(shape)) <= 64:
+        lines.append(f"voxels {tok}")
+        impl.append(show(call(lambda: cs.voxels), lambda r: int_rows(np.asarray(r))))
+        lines.append(f"coords {tok}")
+        impl.append(show(call(lambda: cs.coordinates), lambda r: show_rows(np.asarray(r))))
+    raw = [rng.randint(-40, 40) / 8 for _ in range(dim)]
+    lines.append(f"mkrev vox {flist(raw)}")
+    impl.append(show(call(d.make_voxel, np.array(raw), matrix_indexing=False), lambda r: " ".join(str(int(x)) for x in np.asarray(r))))
+    lines.append(f"mkrev ctr {flist(raw)}")
+    impl.append(show(call(d.make_voxel_center, np.array(raw), matrix_indexing=False), lambda r: fmts(np.asarray(r))))
+    width = rng.choice([dim, dim, 1, 2, 3, 4])
+    pts = [[rng.randint(-40, 40) / 8 for _ in range(width)] for _ in range(rng.randint(1, 3))]
+    for mi in (True, False):
+        lines.append(f"mkb vox {int(mi)} {pts_tokens(pts)}")
+        impl.append(show(call(d.make_voxel, np.array(pts), matrix_indexing=mi), lambda r: int_rows(np.asarray(r))))
+        lines.append(f"mkb ctr {int(mi)} {pts_tokens(pts)}")
+        impl.append(show(call(d.make_voxel_center, np.array(pts), matrix_indexing=mi), lambda r: show_rows(np.asarray(r))))
+    lines.append(f"mkb coord 1 {pts_tokens(pts)}")
+    impl.append(show(call(d.make_coordinate, np.array(pts)), lambda r: show_rows(np.asarray(r))))
+    for mode in ("same", "dims", "shape", "origin", "dim"):
+        g2 = variant_geometry(rng, g, mode)
+        if g2 is None:
+            continue
+        img2 = make_image(d, g2, "scalar")
+        if isinstance(img2, Raised):
+            continue
+        o2 = [float(x) for x in np.asarray(img2.origin)]
+        for ex in (False, True):
+            for (ga, ia, oa, gb, ib, ob) in ((g, img, origin, g2, img2, o2), (g2, img2, o2, g, img, origin)):
+                r = call(d.check_equal_coordinatesystems, ia.coordinatesystem, ib.coordinatesystem, ex)
+                lines.append(f"cseq {cs_tokens(ga, oa)} {cs_tokens(gb, ob)} {int(ex)}")
+                impl.append(show(r, lambda r: f"{int(bool(r[0]))} | " + " ".join(r[1])))
 
 
 def correspondence(ctx, d, geoms, halo, stats):
@@ -380,6 +723,7 @@ def correspondence(ctx, d, geoms, halo, stats):
     for g, payload in geoms:
         dim, shape = g["dim"], g["shape"]
         img = make_image(d, g, payload)
+        g = effective(g)
         cs = img if isinstance(img, Raised) else call(lambda: img.coordinatesystem)
         if isinstance(cs, Raised):
             ctx.mark("CORR-BROKEN", {"correspondence": "coord", "geometry": g, "error": repr(cs)})
@@ -430,6 +774,21 @@ def correspondence(ctx, d, geoms, halo, stats):
                 r = call(fn, np.array(raw))
                 lines.append(f"mk {k} {flist(raw)}")
                 impl.append(repr(r) if isinstance(r, Raised) else fmts(np.asarray(r)))
+            surface_lines(ctx, d, g, img, cs, tok, origin, lines, impl)
+            if g.get("history"):
+                # the in-place life of this image object against the stateless model (coordinatesystem = function of the current fields)
+                g0 = {k_: v_ for k_, v_ in g.items() if k_ not in ("history", "built_dims", "built_origin")}
+                g0 = dict(g0, dims=g["built_dims"], origin=g["built_origin"])
+                img0 = make_image(d, g0, payload)
+                o0 = [float(x) for x in np.asarray(img0.origin)]
+                ops = []
+                for op in g["history"]:
+                    ops.append("touch" if op == "touch" else "reset" if op == "reset_origin" else
+                               ("origin " + flist(op[1])) if op[0] in ("set_origin", "update_origin") else ("dims " + flist(op[1])))
+                lines.append(f"hist {cs_tokens(g0, o0)} {len(ops)} " + " ".join(ops))
+                z, opp = call(cs.coordinate, [0] * dim), call(lambda: img.opposite_corner)
+                impl.append(fmts(img.dimensions) + " | " + fmts(np.asarray(img.origin)) + " | " +
+                            (repr(z) if isinstance(z, Raised) else fmts(np.asarray(z))) + " | " + (repr(opp) if isinstance(opp, Raised) else fmts(np.asarray(opp))))
         else:
             # general stream: the model evaluates the exact rational coordinates; measured, not diffed
             gen_lines.append(f"coord {tok} {pts_tokens(pts)}")
@@ -481,6 +840,7 @@ def geometries(ctx):
                 for _ in range(19):
                     out.append((gen_geometry(rng, dim, rand_shape(rng, dim, 7), regime), PAYLOADS[n % 4]))
                     n += 1
+    out = [(with_history(rng, g), pl) if (k % 4 == 1) else (g, pl) for k, (g, pl) in enumerate(out)]
     return out
 
 
@@ -518,9 +878,12 @@ def run(ctx):
     ctx.cov["geometries"] = len(geoms)
     ctx.cov["distribution"] = dist
     ctx.cov["measured_float_error_voxel_units"] = stats
-    if max(stats.values()) >= 2.0 ** -20:
+    if max(stats["max_err_voxels"], stats["max_err_voxels_model"]) >= 2.0 ** -20:
         ctx.mark("TIE-BROKEN", {"float_error_voxels": stats, "bound": 2.0 ** -20,
                                 "meaning": "the float error of coordinate() exceeds the bound under which the general stream's offsets are safely inside a voxel"})
+    ctx.notes.append("num_voxels(length(n, axis), axis) on general (non-dyadic) floats returns n+1 instead of n in a few percent of the geometries "
+                     "(counters num_voxels_float_*): ceil of the float quotient n*h/h = n(1+eps). Exact in the rational model (num_voxels_length); "
+                     "recorded, not part of the property's statement.")
     ctx.cov["exhaustive"] = bool(ctx.big)
     ctx.cov["rule"] = ("thorough: every shape <= 6 per axis in 1-3-D x 7 dimension/origin regimes + 300 random larger shapes, every voxel + halo 2; "
                        "quick: 399 random geometries; distinct = (clause, geometry, payload, offset class, call form)")
